@@ -225,7 +225,7 @@ class _GhostList:
 @harness('R7', targets=[f'{REG}.ResourceRegistry.has_handlers', f'{REG}.ChangingRegistry.get_resource_handlers',
                         f'{REG}.ResourceRegistry.get_all_selectors', f'{REG}.GenericRegistry.get_all_handlers',
                         f'{REG}.GenericRegistry.append'],
-         props=['C15', 'C02'],
+         props=['C15', 'C02', 'C14'],
          clauses=['has_iff_some_handler_serves', 'collects_serving_in_order', 'starts_empty', 'deduplicated_result',
                   'selectors_of_all_handlers', 'append_keeps_order', 'frame'],
          canaries=['canary.always_exists', 'canary.collects_all', 'canary.no_selectors'],
@@ -595,7 +595,7 @@ def _same_kwargs(got, want):
 
 @harness('R10', targets=[f'{REG}._matches_metadata', f'{REG}._matches_labels', f'{REG}._matches_annotations',
                          f'{REG}._matches_filter_callback', f'{REG}._matches_resource', f'{REG}._matches_subresource'],
-         props=['C15'],
+         props=['C15', 'C18'],
          clauses=['item_semantics', 'all_items', 'callback_arguments', 'kwargs_built_at_most_once', 'frame',
                   'labels_stanza', 'annotations_stanza', 'when_callback', 'resource_selector', 'subresource'],
          canaries=['canary.always_matches', 'canary.never_matches'],
@@ -889,7 +889,7 @@ def _check_value_callbacks(vc, world, cause, cbs, kwargs, pre):
     vc.ensure('frame', not world.bad)
 
 
-@harness('R11', targets=[f'{REG}._matches_field_values', f'{REG}._matches_field_changes'], props=['C15'],
+@harness('R11', targets=[f'{REG}._matches_field_values', f'{REG}._matches_field_changes'], props=['C15', 'C18'],
          clauses=['no_field_no_criterion', 'value_on_current_state', 'value_on_old_or_new_for_updates', 'value_on_body_state',
                   'change_criteria', 'not_applicable', 'callback_arguments', 'kwargs_built_at_most_once', 'frame'],
          canaries=['canary.always_matches', 'canary.never_matches'],
@@ -985,7 +985,7 @@ PARTS = ('_matches_resource', '_matches_subresource', '_matches_labels', '_match
 WHEN_PART, CHANGES_PART = '_matches_filter_callback', '_matches_field_changes'
 
 
-@harness('R12', targets=[f'{REG}.match', f'{REG}.prematch'], props=['C15'],
+@harness('R12', targets=[f'{REG}.match', f'{REG}.prematch'], props=['C15', 'C18'],
          clauses=['conjunction_of_all_criteria', 'prematch_ignores_change_criteria', 'when_evaluated_last', 'arguments',
                   'one_shared_kwargs', 'kwargs_built_at_most_once', 'integration'],
          canaries=['canary.always_matches', 'canary.never_matches'],
